@@ -10,4 +10,5 @@ for r in res:
     print(' ', r['status'], r['name'], 'paths', r['paths'], '%.2fs' % r['time'], r['solver'])
     if r['status'] == 'refuted' and os.environ.get('MODEL'):
         print('     ', {k: v for k, v in r.get('model', {}).items() if not k.startswith('CLS_')})
+print('failed covers', [n for n, ok in v.covers if not ok])
 print('undecided', v.undecided, 'sym %.1fs solve %.1fs' % (ts, tz))
